@@ -14,6 +14,7 @@ CONSTANTS
   MaxRejects = 1
   Policies = {"ALL", "LEADER", "NONE"}
   UseCheckpoint = FALSE
+  MaxPause = 0
   Batch = 1
   IgnoreTaints = FALSE
 INVARIANTS Inv_CommittedSurvives Inv_NoDivergence Inv_HWBacked Inv_Nacked Inv_Struct
